@@ -405,6 +405,33 @@ def check_case(ctx, case):
         ctx.nontrivial(case, sample=case)
 
 
+def check_redirect(ctx, case):
+    """redirect(target) writes the (joined) target into Location: whatever the target is, no value with CR / LF / NUL reaches the server; a clean target is
+    answered with a 3xx whose Location decodes to a text that ends with the target."""
+    import ombott
+    app = ombott.app            # redirect() works on the module-level application's request / response
+    box = {'t': case['target']}
+    app.route('/__verif_redirect', callback=lambda: ombott.redirect(box['t'], case.get('code')), overwrite=True)
+    r = call_app(app, make_environ('GET', '/__verif_redirect', headers={'Host': 'example.org'}))
+    if r.escaped is not None:
+        raise CheckFailure(f'redirect({case["target"]!r}) let an exception escape: {fmt_exc(r.escaped)}')
+    for k, v in r.headers:
+        if _has_ctl(v):
+            raise CheckFailure(f'redirect({case["target"]!r}): emitted {k} contains CR/LF/NUL: {v!r} (status {r.status!r})')
+        try:
+            v.encode('latin1').decode('utf8')
+        except UnicodeError:
+            raise CheckFailure(f'redirect({case["target"]!r}): emitted {k} = {v!r} is not Latin-1 text whose bytes are UTF-8')
+    if not _has_ctl(case['target']):
+        if r.code not in (301, 302, 303, 307, 308):
+            raise CheckFailure(f'redirect({case["target"]!r}) with a clean target answered {r.status!r}')
+        loc = (r.header('Location') or '').encode('latin1').decode('utf8')
+        if all(0x21 <= ord(c) < 0x7f for c in case['target']) and not loc.endswith(case['target'].lstrip('./')) and case['target'] not in loc:
+            raise CheckFailure(f'redirect({case["target"]!r}): Location {loc!r} does not hold the target')
+    ctx.evals += 1
+    ctx.nontrivial('redirect:' + repr(case))
+
+
 def check_static_download(ctx, case):
     """static_file(..., download=True / 'name') writes the file name into Content-Disposition: like every emitted value it must be a Latin-1 encodable
     native string whose bytes decode as UTF-8 to a text that holds the name; mimetype / charset arguments end up in Content-Type the same way."""
@@ -531,6 +558,14 @@ def run(ctx):
             for download in (True, 'other name.txt', 'r\xe9sum\xe9.pdf', '\u65e5.txt', False):
                 ctx.guarded(check_static_download, {'static': True, 'fname': fname, 'download': download})
         ctx.count('static_download_grid')
+        bases = ['/next', 'next?x=1', 'http://example.org/a', 'https://other.example/b', 'mailto:a@b.example', 'app://open/x', '//cdn.example/y', 'caf\xe9/\u65e5', '']
+        inj = ['', '\r\nSet-Cookie: a=b', '\nX: y', '\r', '\0', '\r\n\r\n<html>', '%0d%0a', '\r\n ', '\t']
+        for b_ in bases:
+            for i_ in inj:
+                for where in ('end', 'mid'):
+                    t = b_ + i_ if where == 'end' else b_[:len(b_) // 2] + i_ + b_[len(b_) // 2:]
+                    ctx.guarded(check_redirect, {'redirect': True, 'target': t})
+        ctx.count('redirect_grid')
         # set_cookie with every injection shape, plain / quoted / half-quoted, next to a clean header
         for s in shapes + ['abc\r\nX-Injected:1', 'abc\0', 'a\r\nSet-Cookie:z=1']:
             for q in ('%s', '"%s"', '"%s', '%s"', "'%s'"):
@@ -553,6 +588,8 @@ def run(ctx):
 
 
 def replay(ctx, case):
+    if case.get('redirect'):
+        return check_redirect(ctx, case)
     if case.get('static'):
         return check_static_download(ctx, case)
     if 'threaded' in case:
